@@ -823,6 +823,63 @@ def add_call_ghosts(u, fnpath, text, log):
     return text
 
 
+def desugar_range_map_filter_collect(text, log, where):
+    """R17b: `(RANGE).map(|X| E).filter(|Y| P).collect::<T>()` -> the loop it abbreviates:
+    `{ let mut verif_out = <T>::default(); for X in RANGE { let verif_item = E; if { let Y = &verif_item; P } { verif_out.insert(verif_item); } } verif_out }`
+    (Iterator adapters are lazy and element-wise: map, then filter on a reference, then Extend::extend = insert)."""
+    toks = lex(text)
+    for i in range(len(toks) - 8):
+        if toks[i].text != "(":
+            continue
+        rc = match_close(toks, i)
+        inner = text[toks[i].end:toks[rc].start]
+        if ".." not in inner or rc + 3 >= len(toks):
+            continue
+        if not (toks[rc + 1].text == "." and toks[rc + 2].text == "map" and toks[rc + 3].text == "("):
+            continue
+        mc = match_close(toks, rc + 3)
+        if not (toks[mc + 1].text == "." and toks[mc + 2].text == "filter" and toks[mc + 3].text == "("):
+            continue
+        fc = match_close(toks, mc + 3)
+        if not (toks[fc + 1].text == "." and toks[fc + 2].text == "collect" and toks[fc + 3].text == "::"):
+            continue
+        k = fc + 4
+        assert toks[k].text == "<"
+        depth = 0
+        j = k
+        while True:
+            if toks[j].text == "<":
+                depth += 1
+            elif toks[j].text == ">":
+                depth -= 1
+            elif toks[j].text == ">>":
+                depth -= 2
+            if depth <= 0:
+                break
+            j += 1
+        ty = text[toks[k].end:toks[j].start].strip()
+        if not (toks[j + 1].text == "(" and toks[j + 2].text == ")"):
+            continue
+
+        def closure(o, c):
+            # tokens o..c are '(' ... ')' around `|pat| body`
+            a = o + 1
+            assert toks[a].text == "|"
+            b = a + 1
+            while toks[b].text != "|":
+                b += 1
+            return text[toks[a].end:toks[b].start].strip(), text[toks[b].end:toks[c].start].strip()
+        mx, me = closure(rc + 3, mc)
+        fy, fp = closure(mc + 3, fc)
+        # comments inside the closures would swallow the rest of a line: keep newlines
+        repl = ("{ let mut verif_out = <%s>::default();\nfor %s in %s {\nlet verif_item = %s;\nif { let %s = &verif_item;\n%s\n} { verif_out.insert(verif_item); }\n}\nverif_out }"
+                % (ty, mx, inner.strip(), me, fy, fp))
+        text = text[:toks[i].start] + repl + text[toks[j + 2].end:]
+        log.append(("R17b", where, "range.map.filter.collect::<%s>() desugared into a loop" % ty))
+        return text
+    return text
+
+
 def annotate_closures(u, fnpath, text, log):
     """R13: give a closure an explicit Verus header (parameter types, requires/ensures); the body is
     kept verbatim (wrapped in a block when it is a bare expression)."""
@@ -883,6 +940,7 @@ def process_fn(u, fnpath, text, log, origin, canary=None):
     text = rewrite_splice(text, log, fnpath)
     if settings.get("mapcollect") == "loop":
         text = desugar_map_collect(text, log, fnpath)
+        text = desugar_range_map_filter_collect(text, log, fnpath)
     if u.sqlmap:
         text = rewrite_sql(u, fnpath, text, log)
     if fnpath in u.mutself:
